@@ -31,6 +31,8 @@ pub struct Edit {
 }
 
 pub struct SrcFile {
+    /// for a macro expansion (R6): line of the real file where the transcriber starts, minus one
+    pub line_base: usize,
     pub rel: String,
     pub text: String,
     pub ast: syn::File,
@@ -48,13 +50,25 @@ impl SrcFile {
                 line_starts.push(i + 1);
             }
         }
-        SrcFile { rel: rel.to_string(), text, ast, line_starts }
+        SrcFile { line_base: 0, rel: rel.to_string(), text, ast, line_starts }
+    }
+    /// R6: a synthetic source = the transcriber of a flat `macro_rules!` with its metavariables substituted
+    fn from_text(rel: &str, text: String, line_base: usize) -> SrcFile {
+        let ast = syn::parse_file(&text).unwrap_or_else(|e| die(&format!("cannot parse macro expansion {}: {}", rel, e)));
+        let mut line_starts = vec![0usize];
+        for (i, b) in text.bytes().enumerate() {
+            if b == b'\n' {
+                line_starts.push(i + 1);
+            }
+        }
+        SrcFile { line_base, rel: rel.to_string(), text, ast, line_starts }
     }
     fn line_of(&self, off: usize) -> usize {
-        match self.line_starts.binary_search(&off) {
-            Ok(i) => i + 1,
-            Err(i) => i,
-        }
+        self.line_base
+            + match self.line_starts.binary_search(&off) {
+                Ok(i) => i + 1,
+                Err(i) => i,
+            }
     }
     /// byte offset of a proc-macro2 line/column (column counts chars)
     fn off(&self, lc: proc_macro2::LineColumn) -> usize {
@@ -691,6 +705,148 @@ fn emit(f: &SrcFile, s: usize, e: usize, edits: &mut Vec<Edit>) -> Emitted {
     Emitted { text, src_lines }
 }
 
+/// R6: textual instantiation of a flat `macro_rules!` (single arm, `$x:frag` metavariables separated by literal tokens).
+fn expand_macro(root: &str, ed: &ExpandDir) -> SrcFile {
+    let path = format!("{}/{}", root, ed.file);
+    let text = std::fs::read_to_string(&path).unwrap_or_else(|e| die(&format!("cannot read {}: {}", path, e)));
+    // definition: macro_rules! NAME { ( matcher ) => { transcriber } ... }
+    let defpat = format!("macro_rules! {}", ed.mac);
+    let dpos = text.find(&defpat).unwrap_or_else(|| die(&format!("R6: macro_rules! {} not found in {}", ed.mac, ed.file)));
+    let bytes = text.as_bytes();
+    // helper: find matching close for the delimiter opening at `open`
+    let matching = |open: usize| -> usize {
+        let (o, c) = match bytes[open] {
+            b'(' => (b'(', b')'),
+            b'{' => (b'{', b'}'),
+            b'[' => (b'[', b']'),
+            _ => die("R6: expected delimiter"),
+        };
+        let mut depth = 0i32;
+        let mut i = open;
+        let mut in_line_comment = false;
+        while i < bytes.len() {
+            let ch = bytes[i];
+            if in_line_comment {
+                if ch == b'\n' {
+                    in_line_comment = false;
+                }
+            } else if ch == b'/' && i + 1 < bytes.len() && bytes[i + 1] == b'/' {
+                in_line_comment = true;
+            } else if ch == o {
+                depth += 1;
+            } else if ch == c {
+                depth -= 1;
+                if depth == 0 {
+                    return i;
+                }
+            }
+            i += 1;
+        }
+        die("R6: unbalanced delimiters")
+    };
+    let body_open = dpos + text[dpos..].find('{').unwrap();
+    let body_close = matching(body_open);
+    let m_open = body_open + 1 + text[body_open + 1..].find('(').unwrap();
+    let m_close = matching(m_open);
+    let matcher = &text[m_open + 1..m_close];
+    let t_open = m_close + text[m_close..].find('{').unwrap();
+    let t_close = matching(t_open);
+    if text[t_close + 1..body_close].trim().trim_matches(';').trim().len() > 0 {
+        die("R6: macro has more than one arm");
+    }
+    let transcriber = &text[t_open + 1..t_close];
+    let line_base = text[..t_open + 1].matches('\n').count();
+    // matcher -> list of (literal-before, var)
+    let mut vars: Vec<(String, String)> = vec![]; // (literal text preceding the var, var name)
+    let mut rest = matcher;
+    loop {
+        match rest.find('$') {
+            None => break,
+            Some(p) => {
+                let lit = rest[..p].to_string();
+                let after = &rest[p + 1..];
+                let colon = after.find(':').unwrap_or_else(|| die("R6: metavariable without fragment"));
+                let name = after[..colon].trim().to_string();
+                let frag_end = after[colon + 1..].find(|ch: char| !(ch.is_alphanumeric() || ch == '_')).map(|x| colon + 1 + x).unwrap_or(after.len());
+                vars.push((lit, name));
+                rest = &after[frag_end..];
+            }
+        }
+    }
+    // invocation: NAME! { ... } containing key, outside the definition
+    let invpat = format!("{}!", ed.mac);
+    let mut from = 0;
+    let mut inv: Option<&str> = None;
+    while let Some(p) = text[from..].find(&invpat) {
+        let at = from + p;
+        from = at + invpat.len();
+        if at >= dpos && at <= body_close {
+            continue;
+        }
+        let o = from + text[from..].find(|ch: char| ch == '{' || ch == '(').unwrap_or_else(|| die("R6: invocation without delimiter"));
+        let c = matching(o);
+        let args = &text[o + 1..c];
+        if norm_ws(args).contains(&norm_ws(&ed.key)) {
+            inv = Some(args);
+            break;
+        }
+    }
+    let args = inv.unwrap_or_else(|| die(&format!("R6: no invocation of {}! containing `{}`", ed.mac, ed.key)));
+    // bind: for each var, skip its preceding literal (whitespace-insensitively), take text up to the next literal's first token
+    let mut out = transcriber.to_string();
+    let mut cur = args;
+    let mut binds: Vec<(String, String)> = vec![];
+    for (k, (lit, name)) in vars.iter().enumerate() {
+        let litn: String = lit.chars().filter(|c| !c.is_whitespace()).collect();
+        // consume literal
+        let mut ci = 0usize;
+        let mut matched = String::new();
+        let cb: Vec<(usize, char)> = cur.char_indices().collect();
+        let mut idx = 0;
+        while matched.len() < litn.len() && idx < cb.len() {
+            let (bi, ch) = cb[idx];
+            if !ch.is_whitespace() {
+                matched.push(ch);
+            }
+            ci = bi + ch.len_utf8();
+            idx += 1;
+        }
+        if matched != litn {
+            die(&format!("R6: invocation does not match the macro pattern near `{}`", lit.trim()));
+        }
+        cur = &cur[ci..];
+        let next_lit: String = if k + 1 < vars.len() { vars[k + 1].0.chars().filter(|c| !c.is_whitespace()).collect() } else { String::new() };
+        let end = if next_lit.is_empty() {
+            cur.trim_end().trim_end_matches(',').len()
+        } else {
+            // next literal starts with its first non-space char (e.g. ','): find at depth 0
+            let first = next_lit.chars().next().unwrap();
+            let mut depth = 0i32;
+            let mut e = cur.len();
+            for (bi, ch) in cur.char_indices() {
+                if ch == '(' || ch == '[' || ch == '{' {
+                    depth += 1;
+                } else if ch == ')' || ch == ']' || ch == '}' {
+                    depth -= 1;
+                } else if ch == first && depth == 0 {
+                    e = bi;
+                    break;
+                }
+            }
+            e
+        };
+        binds.push((name.clone(), cur[..end].trim().to_string()));
+        cur = &cur[end..];
+    }
+    // substitute longest names first
+    binds.sort_by(|a, b| b.0.len().cmp(&a.0.len()));
+    for (name, val) in &binds {
+        out = out.replace(&format!("${}", name), val);
+    }
+    eprintln!("vx: R6 expanded {}!({}) with {:?}", ed.mac, ed.key, binds);
+    SrcFile::from_text(&ed.file, out, line_base)
+}
+
 /// R13 data extraction: flatten the integer literals of a constant initialiser (source order) and compute a
 /// shape signature that pins the layout (struct names, field names and order, array lengths).
 fn flatten_data(e: &Expr, lits: &mut Vec<String>, f: &SrcFile) -> String {
@@ -890,6 +1046,11 @@ fn main() {
             Segment::Text(t) => push(&mut out, &mut out_line, t),
             Segment::ConstFoldHere => {
                 push(&mut out, &mut out_line, "\u{0}CONSTFOLD\u{0}\n");
+            }
+            Segment::Expand(ed) => {
+                let sf = expand_macro(root, ed);
+                files.insert(format!("@{}", ed.alias), sf);
+                *rule_counts.entry("R6-macro-expand".to_string()).or_default() += 1;
             }
             Segment::Data(dd) => {
                 if !files.contains_key(&dd.file) {
